@@ -46,7 +46,7 @@ class Elab:
         self.base_ext["get_type_name_short"] = lambda a: "type"
         self.ip_plain = I.Interp(facts, max_depth=12, extern=self.base_ext)
 
-    TAGS = ("L", "R", "C")
+    TAGS = ("L", "R", "C", "D", "E")
 
     def module_for(self, operands):
         """a Module whose local variable k has the type of operand TAGS[k]"""
@@ -133,6 +133,51 @@ class Elab:
         ip = self.interp(operands)
         fn = self.f.fn("parse_expr_unchecked", TY)
         return self._run(ip, fn, [ast_node, self.ctx])
+
+    def run_call(self, params, args, defaults=0):
+        """write_function for one overload f(params) called with the operands args (tags L, R, C in order).
+        params: [(type name, modifier index, 'In'|'Out'|'InOut')]"""
+        tags = self.TAGS[:len(args)]
+        operands = dict(zip(tags, args))
+        ip = self.interp(operands)
+        sig = I.Enum("FunctionSignature", None, {
+            "return_type": I.Enum("FunctionReturn", None, {"return_type": self.u.type_id("Float32"), "semantic": I.Enum("Option", "None")}),
+            "template_params": [], "non_default_params": len(params) - defaults,
+            "param_types": [I.Enum("ParamType", None, {"type_id": self.u.type_id(t, m), "input_modifier": I.Enum("InputModifier", im)}) for t, m, im in params]})
+        ip.extern["FunctionRegistry::get_function_signature"] = lambda a: sig
+        ip.extern["FunctionRegistry::get_intrinsic_data"] = lambda a: I.Enum("Option", "None")
+        ip.extern["FunctionRegistry::get_template_instantiation_data"] = lambda a: I.Enum("Option", "None")
+        ip._extern_cache.clear()
+        fn = self.f.fn("write_function", TY)
+        unresolved = I.Enum("UnresolvedFunction", None, {"overloads": [I.Enum("FunctionId", None, {"0": 0})]})
+        return self._run(ip, fn, [unresolved, [], [operands[t] for t in tags], [self.operand_node(t, operands[t]) for t in tags],
+                                  I.Opaque("loc"), I.Enum("CallType", "FreeFunction"), self.ctx]), operands
+
+    def run_return(self, ret, operand):
+        """parse_statement on `return L;` in a function returning `ret` (a type name, unmodified)"""
+        operands = {"L": operand}
+        ip = self.interp(operands)
+        ip.extern["parse_statement_attributes"] = lambda a: I.Enum("Result", "Ok", {"0": []})
+        ip.extern["get_current_return_type"] = lambda a: self.u.type_id(ret)
+        ip.extern["parse_expr"] = lambda a: I.Enum("Result", "Ok", {"0": (self.operand_node(a[0].fields["tag"], self.cur[a[0].fields["tag"]]), self.cur[a[0].fields["tag"]])})
+        ip._extern_cache.clear()
+        fn = self.f.fn("parse_statement", TY)
+        st = I.Enum("Statement", None, {"kind": I.Enum("StatementKind", "Return", {"0": I.Enum("Option", "Some", {"0": located("L")})}),
+                                        "location": I.Opaque("loc"), "attributes": []})
+        return self._run(ip, fn, [st, self.ctx]), operands
+
+    def run_initializer(self, declared, mod, inits):
+        """parse_initializer for a variable of type `declared`; inits: an operand (expression form) or a list (aggregate)"""
+        flat = inits if isinstance(inits, list) else [inits]
+        tags = self.TAGS[:len(flat)]
+        operands = dict(zip(tags, flat))
+        ip = self.interp(operands)
+        ip.extern["parse_expr"] = lambda a: I.Enum("Result", "Ok", {"0": (self.operand_node(a[0].fields["tag"], self.cur[a[0].fields["tag"]]), self.cur[a[0].fields["tag"]])})
+        ip._extern_cache.clear()
+        fn = self.f.fn("parse_initializer", TY)
+        ex = lambda t: I.Enum("Initializer", "Expression", {"0": located(t)})
+        init = I.Enum("Initializer", "Aggregate", {"0": [ex(t) for t in tags]}) if isinstance(inits, list) else ex("L")
+        return self._run(ip, fn, [init, self.u.type_id(declared, mod), I.Opaque("loc"), self.ctx]), operands
 
     def run_ternary(self, c, l, r):
         ip = self.interp({"C": c, "L": l, "R": r})
